@@ -36,6 +36,9 @@
 #ifndef DMG
 #define DMG 0
 #endif
+#ifndef DMGPOS
+#define DMGPOS 0
+#endif
 #define UNIT (K * BE_WBYTES)
 #define SIZE (((LEN + UNIT - 1) / UNIT) * BE_WBYTES)
 #define FLEN (80 + SIZE)
@@ -55,7 +58,13 @@ int main(void)
         uint8_t *b = malloc(FLEN);
         ASSUME(b != NULL);
 #ifdef UFCRC
+#ifdef UFCONST
+        /* the outcome depends only on which checksums are equal, so distinct constants are a sound
+         * abstraction of the CRC values and keep every validation verdict concrete for symex */
+        cfg.uf = 1; cfg.uf_payload = 0x10000u + i; cfg.uf_meta = 0x20000u + i;
+#else
         cfg.uf = 1; cfg.uf_payload = vin_u32(); cfg.uf_meta = vin_u32();
+#endif
         uf_define(0, b, 59, cfg.uf_meta);
         uf_define(0, b + 80, SIZE, cfg.uf_payload);
 #endif
@@ -63,12 +72,17 @@ int main(void)
 #if DMG
         if ((DMG >> i) & 1) {
             /* symbolic non-zero damage of one payload byte; the checksum no longer matches */
-            uint8_t x = vin_u8(); int pos = SIZE > 1 ? vin_range(0, SIZE - 1) : 0;
+            /* position enumerated by the driver (-DDMGPOS), value symbolic */
+            uint8_t x = vin_u8(); int pos = DMGPOS;
             ASSUME(x != 0 && SIZE > 0);
             b[80 + pos] ^= x;
 #ifdef UFCRC
+#ifdef UFCONST
+            uint32_t bad = 0xBAD00u + i, bad2 = 0xBAD80u + i;
+#else
             uint32_t bad = vin_u32(), bad2 = vin_u32();
             ASSUME(bad != cfg.uf_payload && bad2 != cfg.uf_payload);
+#endif
             uf_std[uf_std_n - 1].v = bad;          /* CRC of the damaged payload differs (standard ...) */
             uf_define(1, b + 80, SIZE, bad2);      /* ... and historical) */
 #endif
